@@ -1,12 +1,12 @@
 (** C27 runner: the translation validator.  A case carries the three ASTs exported by the harness
-    (a0 = Parse p, a1 = Parse (RegexpString a0), a2 = OptimizeRegexp a0) and a few
+    (a0 = Parse p, a1 = Parse (RegexpString a0), a2 = OptimizeRegexp a0, a3 = Parse (RegexpString a2)) and a few
     (subject, leftmost-longest match reported by Go's engine for p) samples that tie [ends] to the engine.
     [norm] is instantiated with the simple-fold orbits of the generated Unicode table. *)
 From Coq Require Import List NArith Arith Bool.
 From ZV Require Import Lib.Base Model.Regex Model.CaseFold.
 Import ListNotations.
 
-Definition c27case := (re * re * re * list (list N * option (nat * nat)))%type.
+Definition c27case := (re * re * re * re * list (list N * option (nat * nat)))%type.
 
 Definition nrm (a : re) : re := norm orbit a.
 
@@ -18,20 +18,22 @@ Definition opt_pair_eqb (a b : option (nat * nat)) : bool :=
   end.
 
 (** certified: print/parse round trip preserves the language *)
-Definition c27_print_ok (c : c27case) : bool := let '(a0, a1, _, _) := c in re_eqb (nrm a0) (nrm a1).
+Definition c27_print_ok (c : c27case) : bool := let '(a0, a1, _, _, _) := c in re_eqb (nrm a0) (nrm a1).
 (** certified: OptimizeRegexp preserves the language *)
-Definition c27_opt_ok (c : c27case) : bool := let '(a0, _, a2, _) := c in re_eqb (nrm a0) (nrm a2).
+Definition c27_opt_ok (c : c27case) : bool := let '(a0, _, a2, _, _) := c in re_eqb (nrm a0) (nrm a2).
+(** certified: printing the OPTIMISED regexp (what query.Regexp holds and matchtree / proto print) and parsing it again preserves the language *)
+Definition c27_optprint_ok (c : c27case) : bool := let '(_, _, a2, a3, _) := c in re_eqb (nrm a2) (nrm a3).
 (** model semantics = Go engine on the samples *)
 Definition c27_sem_ok (c : c27case) : bool :=
-  let '(a0, _, _, ss) := c in
+  let '(a0, _, _, _, ss) := c in
   forallb (fun s => opt_pair_eqb (leftmost_longest orbit a0 (fst s)) (snd s)) ss.
 
-(** 8*index + (1 if print uncertified) + (2 if optimise uncertified) + (4 if model <> engine) *)
+(** 16*index + (1 if print uncertified) + (2 if optimise uncertified) + (4 if model <> engine) + (8 if print of the optimised form uncertified) *)
 Fixpoint c27_codes (l : list c27case) (i : N) : list N :=
   match l with
   | [] => []
   | c :: l' =>
-      let code := ((if c27_print_ok c then 0 else 1) + (if c27_opt_ok c then 0 else 2) + (if c27_sem_ok c then 0 else 4))%N in
-      if (code =? 0)%N then c27_codes l' (N.succ i) else (8 * i + code)%N :: c27_codes l' (N.succ i)
+      let code := ((if c27_print_ok c then 0 else 1) + (if c27_opt_ok c then 0 else 2) + (if c27_sem_ok c then 0 else 4) + (if c27_optprint_ok c then 0 else 8))%N in
+      if (code =? 0)%N then c27_codes l' (N.succ i) else (16 * i + code)%N :: c27_codes l' (N.succ i)
   end.
 Definition c27_mismatches (l : list c27case) : list N := c27_codes l 0%N.
